@@ -18,6 +18,7 @@ def dispatch (op : String) (payload : Json) : R Json :=
   | "cache_history" => C19.handleHistory payload
   | "ser" => C18.handleSer payload
   | "structure" => C18.handleStructure payload
+  | "ir_document" => C18.handleIrDocument payload
   | "imports" => C12.handle payload
   | "diag_run" => C15.handle payload
   | "diag_render" => C15.handleRender payload
